@@ -48,6 +48,8 @@ pub struct DictOpts {
     pub loose_compounds: bool,
     /// number of leading entries that carry the first POS of the pool in order (anchors)
     pub anchor_pos: usize,
+    /// no entry carries the symbol POS 補助記号,一般,*,*,*,* (pool[2]); configurations must then name another OOV POS
+    pub no_symbol_pos: bool,
 }
 
 impl Default for DictOpts {
@@ -66,6 +68,7 @@ impl Default for DictOpts {
             max_key_chars: 4,
             loose_compounds: false,
             anchor_pos: 3,
+            no_symbol_pos: false,
         }
     }
 }
@@ -146,7 +149,10 @@ pub fn gen_system(rng: &mut Rng, opts: &DictOpts, m: &Matrix) -> Lexicon {
         };
         // a key that starts with '#' (a CSV reader in comment mode would drop the line)
         let key = if i >= opts.anchor_pos && rng.chance(1, 40) { format!("#{}", key) } else { key };
-        let p = if i < opts.anchor_pos { pool[i].clone() } else { rng.pick(&pool).clone() };
+        let mut p = if i < opts.anchor_pos { pool[i].clone() } else { rng.pick(&pool).clone() };
+        if opts.no_symbol_pos && p == pool[2] {
+            p = pool[0].clone();
+        }
         let mut e = Entry::simple(
             &key,
             rng.range(0, nid - 1) as i16,
@@ -221,7 +227,10 @@ pub fn add_compounds(rng: &mut Rng, lex: &mut Lexicon, system: Option<&Lexicon>,
         if key.len() > 200 {
             continue;
         }
-        let p = rng.pick(&pool).clone();
+        let mut p = rng.pick(&pool).clone();
+        if opts.no_symbol_pos && !lex.user && p == pos_pool()[2] {
+            p = pos_pool()[0].clone();
+        }
         let mut e = Entry::simple(
             &key,
             rng.range(0, nid - 1) as i16,
